@@ -156,6 +156,15 @@ func (c *fileCtx) passA() {
 			eds = append(eds, edit{c.off(st.Pos()), c.off(st.Pos()), fmt.Sprintf("verifYield(%q); ", site)})
 			c.stats["yield"]++
 		}
+		// syncAfter: a goroutine that was blocked in a receive or in WaitGroup.Wait is woken by
+		// another goroutine's send, close or Done and would run on concurrently with it - who gets a
+		// lock first, whose event is logged first, would be the Go runtime's choice. An always-active
+		// scheduling point right behind the statement makes it the scheduler's.
+		syncAfter := func(st ast.Stmt) {
+			k++
+			eds = append(eds, edit{c.off(st.End()), c.off(st.End()), fmt.Sprintf("; verifSync(%q)", fmt.Sprintf("%s:%s#%d", c.name, fn, k))})
+			c.stats["sync"]++
+		}
 		// hasAtomic: the expression calls sync/atomic (package functions, or the Load/Store/
 		// CompareAndSwap/Swap methods of the atomic types) - a point where another goroutine's
 		// update of shared state becomes visible, hence a scheduling point
@@ -196,6 +205,13 @@ func (c *fileCtx) passA() {
 							break
 						}
 					}
+					// x := <-ch / x, ok = <-ch
+					if len(s.Rhs) == 1 {
+						if u, ok := s.Rhs[0].(*ast.UnaryExpr); ok && u.Op == token.ARROW {
+							yield(s)
+							syncAfter(s)
+						}
+					}
 				case *ast.ReturnStmt:
 					for _, r := range s.Results {
 						if hasAtomic(r) {
@@ -214,6 +230,7 @@ func (c *fileCtx) passA() {
 					case *ast.UnaryExpr:
 						if x.Op == token.ARROW {
 							yield(s)
+							syncAfter(s)
 						}
 					case *ast.CallExpr:
 						if id, ok := x.Fun.(*ast.Ident); ok && id.Name == "close" {
@@ -221,6 +238,9 @@ func (c *fileCtx) passA() {
 						} else if se, ok := x.Fun.(*ast.SelectorExpr); ok {
 							if (se.Sel.Name == "Wait" || se.Sel.Name == "Done") && len(x.Args) == 0 && strings.Contains(strings.ToLower(c.text(se.X)), "wg") {
 								yield(s)
+								if se.Sel.Name == "Wait" {
+									syncAfter(s)
+								}
 							} else if id, ok := se.X.(*ast.Ident); ok && id.Name == "atomic" {
 								yield(s)
 								// and after it: the window between an atomic update and the
